@@ -729,9 +729,92 @@ def cell_matches_model(mcell, real, exact, tol, div=None):
 # case generation
 # ----------------------------------------------------------------------------------------
 
-def gen_values(rng, dtype, vclass, n, w):
+def max_shift(kernel, dtype):
+    """largest k such that symbols a << k (|a| <= 2, inside the dtype) keep the kernel inside the promoted C type"""
+    if dtype in FLOATS:
+        return 40
+    lo, hi = INT_INFO[dtype]
+    width = hi.bit_length() + (1 if lo < 0 else 0)
+    if kernel == 'hamming' or dtype in ('int8', 'int16'):
+        return width - 1
+    if kernel == 'euclidean':
+        return {'int32': 28, 'int64': 29}[dtype]      # |d| <= 4 << k: < 2**31, and d*d < 2**63
+    return {'int32': 28, 'int64': 60}[dtype]          # manhattan: |d| <= 4 << k fits the int / long
+
+
+def gen_highbit_values(rng, dtype, vclass, n, w, kernel):
+    """value classes whose symbols differ only in HIGH bits (or only in low bits):
+    'boundary'      alphabet {min, min+1, -1, 0, 1, max-1, max} (unsigned: 0, 1, mid, mid+1, max-1, max)
+    'pow2-scaled:k' small alphabet {-2..3} << k (k up to width-1; clipped to the dtype and to the no-overflow range)
+    'packed:h'      two-field symbols (hi << h) + lo; X shares the low field with y in most coordinates
+                    (so they differ by a multiple of 2**h) and the high field in some others"""
+    isf = dtype in FLOATS
+    if isf:
+        lo, hi = -2 ** 200, 2 ** 200
+    else:
+        lo, hi = INT_INFO[dtype]
+    name, _, arg = vclass.partition(':')
+    mk = max_shift(kernel, dtype)
+
+    def pick(alphabet, size):
+        return [alphabet[int(i)] for i in rng.integers(0, len(alphabet), size=size)]
+    if name == 'boundary':
+        if lo < 0:
+            alpha = [lo, lo + 1, -1, 0, 1, hi - 1, hi]
+        else:
+            alpha = [0, 1, hi // 2, hi // 2 + 1, hi - 1, hi]
+        if kernel != 'hamming' and dtype in ('int32', 'int64'):
+            # keep every pairwise difference inside the promoted type
+            alpha = [0, 1, hi - 1, hi] if rng.random() < 0.5 else [lo + 1, lo + 2, -1, 0]
+            if kernel == 'euclidean' and dtype == 'int64':
+                alpha = [v for v in alpha if abs(v) <= 1] + [2 ** 31, 2 ** 31 - 1]
+        X, y = pick(alpha, n * w), pick(alpha, w)
+    elif name == 'pow2-scaled':
+        k = int(arg) if arg else int(rng.integers(mk // 2, mk + 1) if rng.random() < 0.6 else rng.integers(0, mk + 1))
+        k = min(k, mk)
+        if isf:
+            k = k if rng.random() < 0.5 else -k
+            alpha = [float(a) * 2.0 ** k for a in (-2, -1, 0, 1, 2, 3)]
+        else:
+            alpha = [v for v in ((a << k) for a in (-2, -1, 0, 1, 2, 3)) if lo <= v <= hi]
+            if kernel != 'hamming' and dtype in ('int32', 'int64') and k == mk:
+                alpha = [v for v in alpha if abs(v) <= (2 << k)]
+        X, y = pick(alpha, n * w), pick(alpha, w)
+    elif name == 'packed':
+        width = 64 if isf else hi.bit_length() + (1 if lo < 0 else 0)
+        h = int(arg) if arg else width // 2
+        h = max(1, min(h, mk if kernel != 'hamming' else width - 2))
+        lows = [0, 1, 2, (1 << h) - 1]
+        nhi = max(0, min(mk, width - 1) - h) if kernel != 'hamming' else width - 1 - h
+        his = [a for a in (-2, -1, 0, 1, 2, 3) if lo <= (a << h) and ((a << h) + (1 << h) - 1) <= hi
+               and (kernel == 'hamming' or abs(a) <= max(1, (1 << nhi) // 2))]
+        ylo, yhi = pick(lows, w), pick(his, w)
+        y = [(b << h) + a for a, b in zip(ylo, yhi)]
+        X = []
+        for i in range(n):
+            for j in range(w):
+                r = rng.random()
+                if r < 0.6:        # same low field, other high field: differs by a multiple of 2**h
+                    X.append((pick(his, 1)[0] << h) + ylo[j])
+                elif r < 0.8:      # same high field, other low field
+                    X.append((yhi[j] << h) + pick(lows, 1)[0])
+                else:
+                    X.append(y[j])
+        if isf:
+            X, y = [float(v) for v in X], [float(v) for v in y]
+    else:
+        raise ValueError(vclass)
+    return [X[i * w:(i + 1) * w] for i in range(n)], y
+
+
+HIGHBIT_CLASSES = ('boundary', 'pow2-scaled', 'packed')
+
+
+def gen_values(rng, dtype, vclass, n, w, kernel=None):
     """logical X (n x w) and y (w) as python numbers (ints, or floats for float dtypes)"""
     np = _np()
+    if vclass.partition(':')[0] in HIGHBIT_CLASSES:
+        return gen_highbit_values(rng, dtype, vclass, n, w, kernel or 'hamming')
 
     def ints(lo, hi, size):
         lo, hi = int(lo), int(hi)
@@ -932,11 +1015,12 @@ def garbage(rng, size):
 
 
 def make_valid_case(rng, kernel, dtype, xl, yl, om, vclass, n, w, threads):
-    Xl, yv = gen_values(rng, dtype, vclass, n, w)
+    Xl, yv = gen_values(rng, dtype, vclass, n, w, kernel)
     xr = fill(make_x_recipe(rng, xl, n, w), dtype, rng, Xl)
     yr = fill(make_1d_recipe(rng, yl, w), dtype, rng, yv)
     spec = {'kernel': kernel, 'X': xr, 'y': yr, 'out': None, 'threads': threads,
-            'tags': {'dtype': dtype, 'xl': xl, 'yl': yl, 'out': om, 'vclass': vclass, 'n': n, 'w': w}}
+            'tags': {'dtype': dtype, 'xl': xl, 'yl': yl, 'out': om, 'vclass': vclass.partition(':')[0],
+                     'vparam': vclass.partition(':')[2], 'n': n, 'w': w}}
     if om != 'none':
         orr = make_1d_recipe(rng, {'contig': 'contig', 'strided': 'strided', 'reversed': 'reversed'}[om], n)
         total = orr.pop('total')
@@ -1412,14 +1496,14 @@ def check_script(ctx, sp, wres, mres_list, record=True):
 def _vclasses(kernel, dtype):
     if dtype in FLOATS:
         return ['small', 'quarters', 'mid', 'general', 'scale-in-range', 'ulp', 'equal-to-y', 'nonfinite',
-                'scale-out-of-range']
+                'scale-out-of-range', 'pow2-scaled', 'packed']
     if dtype in ('bool', 'S1'):
         return ['small' if dtype == 'S1' else 'extreme']
     if kernel == 'hamming':
-        return ['small', 'extreme', 'big-same-sign', 'equal-to-y']
+        return ['small', 'extreme', 'big-same-sign', 'equal-to-y', 'boundary', 'pow2-scaled', 'packed']
     if dtype in ('int8', 'int16'):
-        return ['small', 'extreme', 'equal-to-y']
-    return ['small', 'big-same-sign', 'mid', 'overflow', 'equal-to-y']
+        return ['small', 'extreme', 'equal-to-y', 'boundary', 'pow2-scaled', 'packed']
+    return ['small', 'big-same-sign', 'mid', 'overflow', 'equal-to-y', 'boundary', 'pow2-scaled', 'packed']
 
 
 def _sizes(rng):
@@ -1466,6 +1550,26 @@ def gen_valid_cases(ctx):
         cases.append(make_valid_case(rng, kernel, dt, X_LAYOUTS[int(rng.integers(0, 5))],
                                      Y_LAYOUTS[int(rng.integers(0, 3))], OUT_MODES[int(rng.integers(0, 4))],
                                      vcs[int(rng.integers(0, len(vcs)))], n, w, int(rng.integers(1, 17))))
+    # symbols that differ only in high (or only in low) bits: boundary alphabets, small alphabets shifted by
+    # every k up to width-1 (thorough) / a handful incl. the top bits (quick), packed two-field symbols
+    for kernel in ('hamming', 'euclidean', 'manhattan'):
+        for dt in KERNEL_TYPES[kernel]:
+            if dt in FLOATS:
+                continue
+            mk = max_shift(kernel, dt)
+            if ctx.thorough:
+                ks = list(range(mk + 1))
+            else:
+                ks = sorted(set([mk, mk - 1, (mk + 1) // 2, (mk + 1) // 2 + 1, int(rng.integers(0, mk + 1))]))
+                if kernel != 'hamming':
+                    ks = ks[-2:]
+            vcs = ['boundary'] + ['pow2-scaled:%d' % k for k in ks if k >= 0] + \
+                ['packed:%d' % h for h in ([(mk + 1) // 2, max(1, mk - 2)] if not ctx.thorough
+                                           else range(1, mk + 1, max(1, mk // 8)))]
+            for vc in vcs:
+                k += 1
+                cases.append(make_valid_case(rng, kernel, dt, X_LAYOUTS[k % 5], Y_LAYOUTS[k % 3], OUT_MODES[k % 4],
+                                             vc, int(rng.integers(2, 14)), int(rng.integers(3, 9)), 1 + k % 16))
     # every thread count on one medium problem per kernel (n well above 16 so that all threads get rows)
     for kernel in ('euclidean', 'manhattan', 'hamming'):
         for t in range(1, 17):
